@@ -17,9 +17,9 @@ for ID in "$@"; do
     n=1; while [ -d seeded/$ID-$n ]; do n=$((n+1)); done
     d=seeded/$ID-$n; mkdir -p $d
     cp $SRC/$ID/_seed/patch$K.diff $d/patch.diff
-    cp $SRC/$ID/_seed/demo${K}_test.go $d/demo_test.go.txt
+    if [ -f $SRC/$ID/_seed/demo${K}_test.go ]; then cp $SRC/$ID/_seed/demo${K}_test.go $d/demo_test.go.txt; else cp $SRC/$ID/_seed/demo$K/main.go $d/demo_main.go.txt; fi
     [ -f $SRC/$ID/_seed/notes$K.md ] && cp $SRC/$ID/_seed/notes$K.md $d/notes.md
-    pkg=$(grep -m1 '^package ' $d/demo_test.go.txt | awk '{print $2}')
+    pkg=$(grep -m1 '^package ' $d/demo_*.go.txt | awk '{print $2}')
     dir=.; case "$pkg" in cmd|cmd_test) dir=cmd;; esac
     out=$(tools/seed_matrix.sh own $ID-$n)
     echo "  $out"
